@@ -4745,16 +4745,17 @@ func (t *Terminal) Loop() error {
 	// The item the preview was last requested for. Also updated when an action
 	// restarts the preview, so that the render loop notices that the focus has
 	// moved since then even if it is back on the item it saw before.
-	var focusedIndex = minItem.Index()
+	var previewedIndex = minItem.Index()
 	refreshPreview := func(command string) {
 		if len(command) > 0 && t.canPreview() {
 			_, list := t.buildPlusList(command, false)
-			focusedIndex = t.currentIndex()
+			previewedIndex = t.currentIndex()
 			t.enqueuePreview(command, list)
 		}
 	}
 
 	go func() { // Render loop
+		var focusedIndex = minItem.Index()
 		var version int64 = -1
 		running := true
 		code := ExitError
@@ -4835,9 +4836,10 @@ func (t *Terminal) Loop() error {
 								info = true
 							}
 						}
-						if focusChanged || version != t.version {
+						if focusChanged || version != t.version || previewedIndex != currentIndex {
 							version = t.version
 							focusedIndex = currentIndex
+							previewedIndex = currentIndex
 							refreshPreview(t.previewOpts.command)
 						}
 					case reqJump:
@@ -5252,7 +5254,7 @@ func (t *Terminal) Loop() error {
 					if t.canPreview() {
 						valid, list := t.buildPlusList(t.previewOpts.command, false)
 						if valid {
-							focusedIndex = t.currentIndex()
+							previewedIndex = t.currentIndex()
 							t.enqueuePreview(t.previewOpts.command, list)
 						}
 					} else {
